@@ -88,6 +88,24 @@ Theorem C19_sessions_end_if_all_closed : forall c evs, let st := run evs (init c
 Proof. exact sessions_end_if_all_closed. Qed.
 Print Assumptions C19_sessions_end_if_all_closed.
 
+(* FULL statement "the adapter uses its sync.WaitGroup within the contract: no Add on a counter that has
+   already reached zero (the wg.Wait goroutine it released may not have returned yet)" *)
+Definition C19_no_waitgroup_reuse_full : Prop := forall c evs e, add_from_zero (run evs (init c)) e = false.
+
+(* FALSE of the faithful model (witness_reuse: listener.Close releases the last reference of a session, then
+   a stream of that session arrives and is wrapped) and reproduced on the real code: the process dies with
+   "sync: WaitGroup is reused before previous Wait has returned" (harness family stress/held=false). *)
+Theorem C19_waitgroup_reuse_refuted : ~ C19_no_waitgroup_reuse_full.
+Proof. exact waitgroup_reuse_refuted. Qed.
+Print Assumptions C19_waitgroup_reuse_refuted.
+
+(* strongest provable form: it happens only to a stream that arrives after the counter reached zero *)
+Theorem C19_partial_waitgroup_reuse_only_after_zero : forall c evs s, let st := run evs (init c) in
+  add_from_zero st (Wrap s) = true ->
+  wg_zero (sess_of st s) = true /\ in_map (sess_of st s) = false /\ open_w st s = O.
+Proof. exact waitgroup_reuse_only_after_zero. Qed.
+Print Assumptions C19_partial_waitgroup_reuse_only_after_zero.
+
 (* io.Reader: Read(p) with p non-empty and data buffered returns no error and exactly the next
    min(len p, available) >= 1 bytes of the stream, leaving the rest, for every slicing of the data *)
 Theorem C19_io_read : forall b lenp m,
@@ -156,6 +174,23 @@ Example C19_regression_conn_lost_to_closeCh :
   let st := run evs (init 1) in
   accepts (init 1) evs = true /\ at_rest st = true /\ lreleased st = true /\ delivered st = [] /\
   sclosed (sess_of st 0%nat) = true.
+Proof. vm_compute. repeat split. Qed.
+
+(* the ORDER of listener.Close's steps is essential: with the drain moved before close(closeCh)
+   (run_drain_first: CAS -> drain -> close(closeCh) -> release) a stream that is queued between the drain
+   and close(closeCh) passes the goroutine's re-check (closeCh still open) and is never drained: at rest,
+   after Close, every Accept-ed conn closed - and the session stays open.  So the statement proved above
+   is false for that order; the harness ties the real order to the model through a hook inside the raw
+   listener's Close (observation ORawClose). *)
+Example C19_drain_before_signal_refutes_sessions_end :
+  let evs := [SessionUp; StreamIn 0; Wrap 0; Enqueue 0; PostCheck 0; Accept;     (* conn 0 delivered and held *)
+              LCall; LStep 0; LStep 0;                                           (* CAS; drain (empty) *)
+              StreamIn 0; Wrap 0; Enqueue 0; PostCheck 0;                        (* a stream arrives: closeCh still open *)
+              LStep 0; LStep 0;                                                  (* close(closeCh); release *)
+              WClose 0] in
+  let st := run_drain_first evs (init 4) in
+  at_rest st = true /\ lreleased st = true /\ delivered st = [0]%nat /\ w_closed (wr st 0%nat) = true /\
+  backlog st = [1]%nat /\ sclosed (sess_of st 0%nat) = false.
 Proof. vm_compute. repeat split. Qed.
 
 (* the race the repair has to survive: the enqueue wins the select AFTER listener.Close drained *)
